@@ -41,6 +41,7 @@ def run_history(b):
 
 def _run(b):
     order = list(b['order'])
+    ho = {}
     held = {}
     parked = {}
     events = [{'trace': b['trace'], 'i': 0, 'op': 'start', 'order': order}]
@@ -50,16 +51,26 @@ def _run(b):
         op = c['op']
         try:
             if op == 'var':
-                held[c['h']] = OBDD(c['v'], order) if b.get('build', 'expr') == 'expr' else OBDD(BDDNode(c['v'], BDDNode(False), BDDNode(True)), order)
+                o = list(c.get('order', order))
+                held[c['h']] = OBDD(c['v'], o) if b.get('build', 'expr') == 'expr' else OBDD(BDDNode(c['v'], BDDNode(False), BDDNode(True)), o)
+                ho[c['h']] = o
             elif op == 'const':
-                held[c['h']] = OBDD('1' if c['b'] else '0', order)
+                o = list(c.get('order', order))
+                held[c['h']] = OBDD('1' if c['b'] else '0', o)
+                ho[c['h']] = o
             elif op == 'apply':
                 a, d = held[c['h1']], held[c['h2']]
-                held[c['h']] = (a & d) if c['bop'] == 'and' else (a | d) if c['bop'] == 'or' else (a ^ d)
-                del a, d
+                ev['mixed'] = ho[c['h1']] != ho[c['h2']]
+                ho[c['h']] = ho[c['h1']]
+                try:
+                    held[c['h']] = (a & d) if c['bop'] == 'and' else (a | d) if c['bop'] == 'or' else (a ^ d)
+                finally:
+                    del a, d         # the harness must not keep the operands alive (also when the call raises)
             elif op == 'not':
+                ho[c['h']] = ho[c['h1']]
                 held[c['h']] = ~held[c['h1']]
             elif op == 'restrict':
+                ho[c['h']] = ho[c['h1']]
                 held[c['h']] = held[c['h1']].restrict(c['v'], c['b'] if b.get('restrict_arg', 'bool') == 'bool' else int(c['b']))
             elif op == 'park':
                 parked[c['h']] = held.pop(c['h'])
@@ -73,6 +84,7 @@ def _run(b):
             raise
         except BaseException as ex:
             ev['out'] = {'exc': type(ex).__name__, 'msg': str(ex)[:100]}
+            ex = None
         allh = dict(held)
         allh.update(parked)
         live, dups = heap_scan()
